@@ -92,7 +92,11 @@ class SocketServer_ExistingConnection(object):
             # other error occurred, close the connection, but also log a warning
             ex_t, ex_v, ex_tb = sys.exc_info()
             tb = errors.format_traceback(ex_t, ex_v, ex_tb)
-            msg = "error during handleRequest: %s; %s" % (ex_v, "".join(tb))
+            try:
+                msg = "error during handleRequest: %s; %s" % (ex_v, "".join(tb))
+            except Exception:
+                # (the exception cannot even be turned into text: that must not take the server loop down)
+                msg = "error during handleRequest: %s" % ex_t
             log.warning(msg)
             return False
 
